@@ -141,9 +141,11 @@ class FilterStore(Store):
         get = BoundClass(FilterStoreGet)
 
     def _do_get(self, event: FilterStoreGet) -> bool:
-        for item in self.items:
+        for index, item in enumerate(self.items):
             if event.filter(item):
-                self.items.remove(item)
+                # Remove the matching item itself; list.remove() would take
+                # the first item that merely compares equal to it.
+                del self.items[index]
                 event.succeed(item)
                 break
         return True
